@@ -321,5 +321,7 @@ class Extent(object):
                     if x == FULL and e.kind in ("write", "store", "return") and v is (e.value if e.kind != "store" else e.value):
                         if e.kind == "write" and e.obj == SELF:
                             continue
+                        if e.kind == "return" and tuple(e.chain) != (self.S.fn.qual,):
+                            continue  # the return of an inlined helper: what matters is what the caller does with the value
                         self.flag("full-stored", "a time-indexed object that may hold rows after now is stored / returned whole", v)
         return self.findings
